@@ -110,3 +110,45 @@ package PVM
 //@   ensures ok: output.ExitReason == ExitContinue ==> input.VM.Registers[7] == OK && output.Addition.ResultContextX.Exception != nil && fresh(output.Addition.ResultContextX.Exception) && frame_only(*input.VM.Gas, input.VM.Registers[7])
 //@   ensures exits: output.ExitReason == ExitContinue || output.ExitReason == ExitPanic || output.ExitReason == ExitOOG
 //@   assigns *input.VM.Gas, input.VM.Registers[7]
+
+// ---- more host calls under the C07 discipline (charge, clean out-of-gas / panic exits) with their functional core ----
+//@ pred hc_vm(input) = input.VM != nil && input.VM.Gas != nil && input.VM.Registers != nil && input.VM.Memory != nil && wf_mem(input.VM.Memory) && *input.VM.Gas > -9223372036854775000
+//@ pred hc_acct(a) = a != nil && a.PreimageLookup != nil && a.LookupDict != nil && a.StorageDict != nil
+//@ pred hc_ctx(input) = hc_acct(input.Addition.GeneralArgs.ServiceAccount) && input.Addition.GeneralArgs.ServiceID != nil && input.Addition.GeneralArgs.ServiceAccountState != nil && *input.Addition.GeneralArgs.ServiceAccountState != nil && input.Addition.GeneralArgs.StorageKeyVal != nil && input.Addition.AccumulateArgs.ResultContextX.PartialState.ServiceAccounts != nil && input.Addition.AccumulateArgs.ResultContextX.ServiceBlobs != nil && input.Addition.AccumulateArgs.ResultContextX.StorageKeyVal != nil && input.Addition.RefineArgs.IntegratedPVMMap != nil
+
+// expunge (host call 13): WHO for an unknown handle (nothing changes); otherwise omega7 = the machine's counter and
+// exactly that handle leaves the table
+//@ func expunge
+//@   props C33 C07 C04
+//@   ghost k uint64
+//@   requires vm: hc_vm(input)
+//@   requires ctx: input.Addition.RefineArgs.IntegratedPVMMap != nil
+//@   let n0 = input.VM.Registers[7]
+//@   ensures oog: old(*input.VM.Gas) < 10 ==> output.ExitReason == ExitOOG && *input.VM.Gas == old(*input.VM.Gas) - 10 && frame_only(*input.VM.Gas)
+//@   ensures charged: *input.VM.Gas == old(*input.VM.Gas) - 10
+//@   ensures who: old(*input.VM.Gas) >= 10 && !old(has(input.Addition.RefineArgs.IntegratedPVMMap, n0)) ==> output.ExitReason == ExitContinue && input.VM.Registers[7] == WHO && frame_only(*input.VM.Gas, input.VM.Registers[7])
+//@   ensures removed: old(*input.VM.Gas) >= 10 && old(has(input.Addition.RefineArgs.IntegratedPVMMap, n0)) ==> output.ExitReason == ExitContinue && input.VM.Registers[7] == uint64(old(input.Addition.RefineArgs.IntegratedPVMMap[n0].PC)) && !has(input.Addition.RefineArgs.IntegratedPVMMap, n0)
+//@   ensures others: k != n0 ==> has(input.Addition.RefineArgs.IntegratedPVMMap, k) == old(has(input.Addition.RefineArgs.IntegratedPVMMap, k)) && (has(input.Addition.RefineArgs.IntegratedPVMMap, k) ==> input.Addition.RefineArgs.IntegratedPVMMap[k] == old(input.Addition.RefineArgs.IntegratedPVMMap[k]))
+//@   assigns everything
+
+// export (host call 7): panic on an unreadable segment, FULL leaves the export list alone, otherwise omega7 = the
+// index of the new segment and exactly one segment is appended
+//@ func export
+//@   props C07 C04
+//@   requires vm: hc_vm(input)
+//@   let full = uint64(input.Addition.RefineArgs.ExportSegmentOffset) + uint64(len(input.Addition.RefineArgs.ExportSegment)) > types.MaxExportCount
+//@   let idx0 = uint64(input.Addition.RefineArgs.ExportSegmentOffset) + uint64(len(input.Addition.RefineArgs.ExportSegment))
+//@   ensures oog: old(*input.VM.Gas) < 10 ==> output.ExitReason == ExitOOG && *input.VM.Gas == old(*input.VM.Gas) - 10 && frame_only(*input.VM.Gas)
+//@   ensures panic_clean: output.ExitReason == ExitPanic ==> *input.VM.Gas == old(*input.VM.Gas) - 10 && frame_only(*input.VM.Gas)
+//@   ensures full: output.ExitReason == ExitContinue && full ==> input.VM.Registers[7] == FULL && output.Addition.RefineArgs.ExportSegment == input.Addition.RefineArgs.ExportSegment && frame_only(*input.VM.Gas, input.VM.Registers[7])
+//@   ensures appended: output.ExitReason == ExitContinue && !full ==> input.VM.Registers[7] == idx0 && len(output.Addition.RefineArgs.ExportSegment) == len(input.Addition.RefineArgs.ExportSegment) + 1
+//@   assigns everything
+
+// upgrade (host call 19): clean exits (the functional part — code hash and gas limits of x's own account — is not stated)
+//@ func upgrade
+//@   props C07 C04
+//@   requires vm: hc_vm(input)
+//@   requires ctx: hc_ctx(input)
+//@   ensures oog: old(*input.VM.Gas) < 10 ==> output.ExitReason == ExitOOG && *input.VM.Gas == old(*input.VM.Gas) - 10 && frame_only(*input.VM.Gas)
+//@   ensures panic_clean: output.ExitReason == ExitPanic ==> *input.VM.Gas == old(*input.VM.Gas) - 10 && frame_only(*input.VM.Gas)
+//@   assigns everything
